@@ -166,19 +166,7 @@ def check(ctx):
         check_snapshot(ctx, run, klass, loop, itexpr)
 
     # ---- R2 for Caller.call -------------------------------------------------
-    call_f = m.func(CB, 'Caller.call')
-    cklass = m.cls(CB, 'Caller')
-
-    def is_plain_cb(c, loop):
-        return isinstance(loop.target, ast.Name) and isinstance(c.func, ast.Name) and c.func.id == loop.target.id
-    cl = dispatch_loops(call_f, is_plain_cb)
-    ctx.need(len(cl) == 1, '%s: Caller.call has no single fan-out loop' % CB)
-    check_snapshot(ctx, call_f, cklass, cl[0][0], resolve_iter(call_f, cl[0][0]))
-    # each registered callable is invoked exactly once with the caller's arguments
-    loop, hits = cl[0]
-    ok = len(hits) == 1 and [norm(a) for a in hits[0].args] == ['*' + (call_f.node.args.vararg.arg if call_f.node.args.vararg else '?')] \
-        and not hits[0].keywords
-    ctx.inst('R2', call_f, 'fanout-args', ok, 'Caller.call must invoke each callable once with *args; found %s' % [norm(h) for h in hits])
+    caller_rules(ctx, 'R2')
 
     # ---- R4: removal predicate ----------------------------------------------
     rm = m.func(CF, '_IncomingPacketHandler.remove_header_callback')
@@ -330,7 +318,26 @@ def barrier(func, loop, call):
     return True, 'try/except Exception around the invocation, handler stays in loop and cannot raise'
 
 
-def check_snapshot(ctx, func, klass, loop, itexpr):
+def caller_rules(ctx, rule='R2'):
+    """Caller.call (the fan-out behind every public callback list): iterates a snapshot and invokes every registered callable once with
+    the caller's arguments.  Shared with C04/C05 (a value / log sample is passed once to every registered callback)."""
+    m = ctx.model
+    call_f = m.func(CB, 'Caller.call')
+    cklass = m.cls(CB, 'Caller')
+
+    def is_plain_cb(c, loop):
+        return isinstance(loop.target, ast.Name) and isinstance(c.func, ast.Name) and c.func.id == loop.target.id
+    cl = dispatch_loops(call_f, is_plain_cb)
+    ctx.need(len(cl) == 1, '%s: Caller.call has no single fan-out loop' % CB)
+    check_snapshot(ctx, call_f, cklass, cl[0][0], resolve_iter(call_f, cl[0][0]), rule)
+    # each registered callable is invoked exactly once with the caller's arguments
+    loop, hits = cl[0]
+    ok = len(hits) == 1 and [norm(a) for a in hits[0].args] == ['*' + (call_f.node.args.vararg.arg if call_f.node.args.vararg else '?')] \
+        and not hits[0].keywords and loop in call_f.node.body
+    ctx.inst(rule, call_f, 'fanout-args', ok, 'Caller.call must invoke each callable once with *args, unconditionally; found %s' % [norm(h) for h in hits])
+
+
+def check_snapshot(ctx, func, klass, loop, itexpr, rule='R2'):
     snap = is_snapshot(itexpr)
     live = set() if snap else live_sources(itexpr)
     bad = []
@@ -340,7 +347,7 @@ def check_snapshot(ctx, func, klass, loop, itexpr):
             bad.append((attr, mut))
     if not snap and not live and not isinstance(itexpr, (ast.Tuple, ast.List)):
         ctx.need(False, '%s: iterable of the fan-out loop not recognised: %s' % (func.qualname, norm(itexpr)))
-    ctx.inst('R2', func, 'snapshot-iteration', not bad,
+    ctx.inst(rule, func, 'snapshot-iteration', not bad,
              'loop over %s invokes registered callables while iterating live list(s) %s that callbacks can mutate through %s'
              % (norm(itexpr)[:60], [b[0] for b in bad], [b[1] for b in bad]) if bad else 'iterates over a snapshot: %s' % norm(itexpr)[:60])
 
